@@ -112,6 +112,9 @@ func goid() int64 {
 	return id
 }
 
+// GoID returns the id of the calling goroutine.
+func GoID() int64 { return goid() }
+
 // me returns the controlled thread of the calling goroutine in the active execution, or nil.
 func me() (*Exec, *thread) {
 	e := current.Load()
@@ -591,12 +594,17 @@ func ReplayOne(r *vreport.Report, cfg Config, prefix []PrefixEntry) *Exec {
 	}
 	r.Add("schedules", 1)
 	r.Add("evaluations", 1)
+	fmt.Printf("REPLAY-TRACE scenario=%s\n", cfg.Name)
+	for _, l := range x.Trace {
+		fmt.Printf("  %s\n", l)
+	}
 	for fp, detail := range viol {
 		var rep any
 		if cfg.Replay != nil {
 			rep = cfg.Replay(cfg.Name, prefix)
 		}
 		r.Violate(fp, detail, rep)
+		fmt.Printf("REPLAY-VIOLATION %s: %s\n", fp, detail)
 	}
 	if x.Diverged != "" {
 		r.Cap("replay diverged: " + x.Diverged)
